@@ -1,5 +1,5 @@
 //@PROBE file=src/utils/clipping/bbox_own_areas.rs test=verif_probe_own_areas_c15 clauses=own_areas
-//@BOUND (a) every set of 1..=3 and 1200 pseudo-random sets of 4..=6 integer-coordinate axis-aligned boxes on a 12x12 grid (shared edges, identical and nested boxes included), exact share by unit-cell counting, tolerance 1e-3; (b) the same sets with every box given as its right-angle rotation (angle pi/2, sides swapped); (c) 600 pseudo-random sets of 2..=5 rotated boxes against a 160x160 point-sampling reference, tolerance 0.02; all sets also reversed and rotated-left by one (order independence, tolerance 1e-4)
+//@BOUND (a) every set of 1..=3 and 1200 pseudo-random sets of 4..=6 integer-coordinate axis-aligned boxes on a 12x12 grid (shared edges, identical and nested boxes included), exact share by unit-cell counting, tolerance 1e-3; (b) the same sets with every box given as its right-angle rotation (angle pi/2, sides swapped); (c) 600 pseudo-random sets of 2..=5 rotated boxes against a 160x160 point-sampling reference, tolerance 0.02, and the same sets with every box handed over after gen_vertices() and an in-place edit; all sets also reversed and rotated-left by one (order independence, tolerance 1e-4)
 #[cfg(test)]
 mod verif_probe_own_areas_c15 {
     // Bounded stand-in for the contract of exclusively_owned_areas + exclusively_owned_areas_normalized_shares
@@ -99,6 +99,16 @@ mod verif_probe_own_areas_c15 {
             }
             if exp.iter().any(|e| *e > 0.05 && *e < 0.95) { nontrivial += 1; }
             cases += 1;
+            // the same set, every rotated box handed over after gen_vertices() on ANOTHER geometry and an in-place edit: the shares follow the current fields
+            let stale: Vec<Universal2DBox> = boxes.iter().map(|b| match b.angle { None => b.clone(), Some(a) => {
+                let mut g = Universal2DBox::new(b.xc + 7.0, b.yc - 4.0, Some(a + 0.8), b.aspect * 1.5, b.height * 0.7);
+                g.gen_vertices();
+                g.xc = b.xc; g.yc = b.yc; g.aspect = b.aspect; g.height = b.height; g.rotate_mut(a);
+                g } }).collect();
+            match (shares(&boxes), shares(&stale)) {
+                (Ok(f), Ok(g)) => if f.iter().zip(g.iter()).any(|(x, y)| (x - y).abs() > 1e-6) { if failures.len() < 100000 { failures.push(format!("PROBE input: own-areas boxes(xc,yc,angle,aspect,height)={:?} [boxes edited after gen_vertices()]: own_areas.share_follows_the_current_geometry: {:?} for fresh boxes, {:?} for the same boxes carrying an outdated cached polygon", boxes.iter().map(|b| (b.xc, b.yc, b.angle, b.aspect, b.height)).collect::<Vec<_>>(), f, g)); } },
+                _ => {}
+            }
             if let Err(e) = common(&boxes, &exp, 0.02, "rotated boxes, point sampling") {
                 if failures.len() < 100000 { failures.push(format!("PROBE input: own-areas boxes(xc,yc,angle,aspect,height)={:?}: {}", boxes.iter().map(|b| (b.xc, b.yc, b.angle, b.aspect, b.height)).collect::<Vec<_>>(), e)); }
             }
@@ -108,7 +118,7 @@ mod verif_probe_own_areas_c15 {
         // one line per failure class (input family x violated clause) with its first inputs
         let mut classes: std::collections::BTreeMap<String, (usize, Vec<String>)> = std::collections::BTreeMap::new();
         for f in failures.iter() {
-            let fam = if f.contains("[the same boxes as right-angle rotations]") { "right-angle-rotations" } else if f.contains("[axis-aligned integer boxes") { "axis-aligned-integer" } else { "rotated-random" };
+            let fam = if f.contains("[boxes edited after gen_vertices()]") { "edited-after-gen-vertices" } else if f.contains("[the same boxes as right-angle rotations]") { "right-angle-rotations" } else if f.contains("[axis-aligned integer boxes") { "axis-aligned-integer" } else { "rotated-random" };
             let clause = f.split("own_areas.").nth(1).map(|r| r.split(|c: char| c == ':' || c == ' ').next().unwrap_or("?")).unwrap_or("?");
             let e = classes.entry(format!("{}/own_areas.{}", fam, clause)).or_insert((0, vec![]));
             e.0 += 1; if e.1.len() < 3 { e.1.push(f.clone()); }
